@@ -118,6 +118,19 @@ class Tmatrix(ScatteringTheory):
         mrr = scatterer.n.real/medium_index
         mri = scatterer.n.imag/medium_index
         eps = rxy/rz
+        # the compiled code keeps the spherical Bessel functions of the
+        # interior argument |m| k r in arrays of 1200 elements without a
+        # bounds check: a large index times size overruns them and crashes
+        # the process. r_max: largest radius vector of the shape the
+        # compiled code builds from axi and eps
+        if iscyl:
+            r_max = axi * (2 / (3 * eps**2))**(1/3.) * np.sqrt(1 + eps**2)
+        else:
+            r_max = axi * eps**(1/3.) * max(1, 1 / eps)
+        t_b = np.hypot(mrr, mri) * 2 * np.pi * r_max / med_wavelen
+        if not t_b + 4 * t_b**(1/3.) + 1.2 * np.sqrt(t_b) + 5 < 1200:
+            raise InvalidScatterer(scatterer, "refractive index times size "
+                                   "too large for the T-matrix code")
         NP = -1 - int(iscyl)
         ndgs = 5
         alpha = scatterer.rotation[2] * 180 / np.pi
